@@ -23,6 +23,10 @@ here with its status (the writers conjuncts C07Clause13–16, added to the headl
 
 ## B. Cannot be removed without changing the model (`Model/RunLoop.lean`), and why
 
+UPDATE: the model WAS changed — the handler fuel now has the term `scriptCost h` (`Props/C07ScriptFuel.lean`: the fuel
+guard is unreachable for every script).  The `hhf` hypotheses below are still in the statements, but are now artefacts
+of the proofs (class **X**), no longer of the model; the description below is that of the model BEFORE the change.
+
 * `hhf : wcost |data| + c ≤ 1000` (`c ∈ {4, 8, 12, 24}`; C07 Clauses 1–3, 6, 8, C11 Clause 5, C12 Clauses 1–3,
   5, 9, 10, C14 Clause 1; inside `Sent.OKu` (the requests of a chain): C07 Clause 4, C11 Clauses 1, 6, 9,
   C14 Clause 2), with
@@ -90,8 +94,11 @@ theorem C12_read_err_in_preamble_e2e : type_of% @C12E.read_err_in_preamble_e2e_u
 
 /-! ## B. Why `hhf` stays: the model's handler fuel is independent of the script -/
 
-/-- the model's handler fuel guard IS reachable by a long enough script (so no end-to-end theorem about the
-model can hold for handler scripts of unbounded cost) -/
+/-- with the script-independent fuel `handlerFuel e r` alone the model's handler fuel guard is reachable by a long
+enough script.  (Since the model's handler fuel has the term `scriptCost h`, the guard is UNREACHABLE for the fuel
+`pollConn` passes: `C07SF.handlerPoll_terminates_actual_holds`, `Props/C07ScriptFuel.lean`; the `hhf` hypotheses of the
+end-to-end conjuncts are from now on artefacts of their PROOFS — class **X** — and can be removed by threading
+`scriptOf c` through the stage invariants.) -/
 theorem script_fuel_guard_is_reachable : ¬ C12.handlerPoll_terminates_full := C12.handlerPoll_terminates_full_false
 
 end Fcgi.HeadlineUnb
